@@ -10,14 +10,26 @@ import (
 	"github.com/tetratelabs/wazero/internal/wasm"
 )
 
+// vectorCapacity bounds the allocation for a vector of declared size vs by what the remaining input
+// can possibly hold: every element takes at least one byte, so a larger count cannot be decoded
+// anyway and must not make the decoder allocate memory out of proportion to the input first.
+// The vectors are then grown by append, which keeps the results and errors exactly as before.
+func vectorCapacity(r *bytes.Reader, vs uint32) uint32 {
+	if remaining := r.Len(); uint64(vs) > uint64(remaining) {
+		return uint32(remaining)
+	}
+	return vs
+}
+
 func decodeTypeSection(enabledFeatures api.CoreFeatures, r *bytes.Reader) ([]wasm.FunctionType, error) {
 	vs, _, err := leb128.DecodeUint32(r)
 	if err != nil {
 		return nil, fmt.Errorf("get size of vector: %w", err)
 	}
 
-	result := make([]wasm.FunctionType, vs)
+	result := make([]wasm.FunctionType, 0, vectorCapacity(r, vs))
 	for i := uint32(0); i < vs; i++ {
+		result = append(result, wasm.FunctionType{})
 		if err = decodeFunctionType(enabledFeatures, r, &result[i]); err != nil {
 			return nil, fmt.Errorf("read %d-th type: %v", i, err)
 		}
@@ -42,8 +54,9 @@ func decodeImportSection(
 	}
 
 	perModule = make(map[string][]*wasm.Import)
-	result = make([]wasm.Import, vs)
+	result = make([]wasm.Import, 0, vectorCapacity(r, vs))
 	for i := uint32(0); i < vs; i++ {
+		result = append(result, wasm.Import{})
 		imp := &result[i]
 		if err = decodeImport(r, i, memorySizer, memoryLimitPages, enabledFeatures, imp); err != nil {
 			return
@@ -73,11 +86,13 @@ func decodeFunctionSection(r *bytes.Reader) ([]uint32, error) {
 		return nil, fmt.Errorf("get size of vector: %w", err)
 	}
 
-	result := make([]uint32, vs)
+	result := make([]uint32, 0, vectorCapacity(r, vs))
 	for i := uint32(0); i < vs; i++ {
-		if result[i], _, err = leb128.DecodeUint32(r); err != nil {
+		var typeIndex uint32
+		if typeIndex, _, err = leb128.DecodeUint32(r); err != nil {
 			return nil, fmt.Errorf("get type index: %w", err)
 		}
+		result = append(result, typeIndex)
 	}
 	return result, err
 }
@@ -93,8 +108,9 @@ func decodeTableSection(r *bytes.Reader, enabledFeatures api.CoreFeatures) ([]wa
 		}
 	}
 
-	ret := make([]wasm.Table, vs)
-	for i := range ret {
+	ret := make([]wasm.Table, 0, vectorCapacity(r, vs))
+	for i := uint32(0); i < vs; i++ {
+		ret = append(ret, wasm.Table{})
 		err = decodeTable(r, enabledFeatures, &ret[i])
 		if err != nil {
 			return nil, err
@@ -129,8 +145,9 @@ func decodeGlobalSection(r *bytes.Reader, enabledFeatures api.CoreFeatures) ([]w
 		return nil, fmt.Errorf("get size of vector: %w", err)
 	}
 
-	result := make([]wasm.Global, vs)
+	result := make([]wasm.Global, 0, vectorCapacity(r, vs))
 	for i := uint32(0); i < vs; i++ {
+		result = append(result, wasm.Global{})
 		if err = decodeGlobal(r, enabledFeatures, &result[i]); err != nil {
 			return nil, fmt.Errorf("global[%d]: %w", i, err)
 		}
@@ -144,9 +161,11 @@ func decodeExportSection(r *bytes.Reader) ([]wasm.Export, map[string]*wasm.Expor
 		return nil, nil, fmt.Errorf("get size of vector: %v", sizeErr)
 	}
 
-	exportMap := make(map[string]*wasm.Export, vs)
-	exportSection := make([]wasm.Export, vs)
+	capacity := vectorCapacity(r, vs)
+	exportMap := make(map[string]*wasm.Export, capacity)
+	exportSection := make([]wasm.Export, 0, capacity)
 	for i := wasm.Index(0); i < vs; i++ {
+		exportSection = append(exportSection, wasm.Export{})
 		export := &exportSection[i]
 		err := decodeExport(r, export)
 		if err != nil {
@@ -175,8 +194,9 @@ func decodeElementSection(r *bytes.Reader, enabledFeatures api.CoreFeatures) ([]
 		return nil, fmt.Errorf("get size of vector: %w", err)
 	}
 
-	result := make([]wasm.ElementSegment, vs)
+	result := make([]wasm.ElementSegment, 0, vectorCapacity(r, vs))
 	for i := uint32(0); i < vs; i++ {
+		result = append(result, wasm.ElementSegment{})
 		if err = decodeElementSegment(r, enabledFeatures, &result[i]); err != nil {
 			return nil, fmt.Errorf("read element: %w", err)
 		}
@@ -191,8 +211,9 @@ func decodeCodeSection(r *bytes.Reader) ([]wasm.Code, error) {
 		return nil, fmt.Errorf("get size of vector: %w", err)
 	}
 
-	result := make([]wasm.Code, vs)
+	result := make([]wasm.Code, 0, vectorCapacity(r, vs))
 	for i := uint32(0); i < vs; i++ {
+		result = append(result, wasm.Code{})
 		err = decodeCode(r, codeSectionStart, &result[i])
 		if err != nil {
 			return nil, fmt.Errorf("read %d-th code segment: %v", i, err)
@@ -207,8 +228,9 @@ func decodeDataSection(r *bytes.Reader, enabledFeatures api.CoreFeatures) ([]was
 		return nil, fmt.Errorf("get size of vector: %w", err)
 	}
 
-	result := make([]wasm.DataSegment, vs)
+	result := make([]wasm.DataSegment, 0, vectorCapacity(r, vs))
 	for i := uint32(0); i < vs; i++ {
+		result = append(result, wasm.DataSegment{})
 		if err = decodeDataSegment(r, enabledFeatures, &result[i]); err != nil {
 			return nil, fmt.Errorf("read data segment: %w", err)
 		}
